@@ -100,7 +100,11 @@ AUDIO_ROOTS = [
 # "cafe\u0301" / "grabacio\u0308n" are spelled with combining characters
 # (NFD): a path is a sequence of code points, not of glyphs
 PATH_PARTS = ["x", "sub dir", "ünï", "a.b", "rec-01", "2024", "日本",
-              "cafe\u0301", "grabacio\u0308n", " lead", "trail ", "latest"]
+              "cafe\u0301", "grabacio\u0308n", " lead", "trail ", "latest",
+              # characters that mean something to other systems (a Windows
+              # separator, a drive colon, URL escapes, a home directory) and
+              # are ordinary characters of a POSIX file name
+              "take\\2", "100%", "%20x", "~tmp", "c:d", "a#b", "q?", "[x]"]
 
 STATES = ["assigned", "completed", "verified", "rejected"]
 
@@ -310,6 +314,7 @@ def draw_cfg(rng: random.Random, focus: str = "C01", tier: str = "quick") -> dic
         cfg["bulk"] = True
     cfg["audio_root"] = rng.choice(AUDIO_ROOTS)
     cfg["tz_aware"] = rng.random() < 0.15
+    cfg["p_dup_ref"] = rng.choice([0, 0, 0, 0.1, 0.3])
     if focus == "C18":
         cfg["p_outside"] = rng.choice([0.0, 0.0, 0.2, 0.5])
         cfg["n_recordings"] = rng.choice([1, 2, 3, 3])
@@ -540,7 +545,8 @@ def gen_rel_path(rs) -> str:
     depth = rs.choice([0, 0, 1, 2, 3])
     parts = [rs.choice(PATH_PARTS) for _ in range(depth)]
     stem = rs.choice(["rec", "ünï rec", "a b", "x.y", "日本", "0001",
-                      "pa\u0301jaro", "Ω"])
+                      "pa\u0301jaro", "Ω", "rec", "a b", "back\\slash",
+                      "50%", "c#4", "~x", "t:1"])
     parts.append(f"{stem}_{rs.randint(0, 999)}.wav")
     return "/".join(parts)
 
@@ -958,7 +964,7 @@ def gen_world(struct_seed, value_seed, cfg) -> dict:
         for kind, root in roots.items():
             fill_extra(root, ROOT_CLASS[kind], rv, cfg)
 
-    return {
+    world = {
         "audio_root": root_dir,
         "users": users,
         "tags": tags,
@@ -977,6 +983,34 @@ def gen_world(struct_seed, value_seed, cfg) -> dict:
         "tasks": tasks,
         "roots": roots,
     }
+    if cfg.get("p_dup_ref"):
+        _repeat_references(world, derive_rng("dup", struct_seed),
+                           cfg["p_dup_ref"], cfg.get("dup_fields"))
+    return world
+
+
+# reference lists in which the same object may be mentioned twice (the
+# collections' own member lists are not among them: there the AOEF table *is*
+# the member list, so a member listed twice cannot satisfy both "identifiers
+# are unique within their list" and "list order is preserved")
+REPEATABLE = [
+    ("recordings", "owners"),
+    ("sequences", "sound_events"),
+    ("clip_annotations", "sound_events"),
+    ("clip_annotations", "sequences"),
+    ("clip_predictions", "sound_events"),
+    ("clip_predictions", "sequences"),
+]
+
+
+def _repeat_references(world, rd, p, only=None):
+    for pool, field in REPEATABLE:
+        if only is not None and [pool, field] not in only:
+            continue
+        for rec in world[pool]:
+            items = rec.get(field)
+            if items and rd.random() < p:
+                items.insert(rd.randrange(len(items) + 1), rd.choice(items))
 
 
 def _subset_keep_order(rs, n, keep=0.8):
@@ -1324,4 +1358,9 @@ def reach_probes(spec) -> list:
             out.add("shape:time-expansion<1")
         if te is not None and te > 1:
             out.add("shape:time-expansion>1")
+    for pool, field in REPEATABLE:
+        for e in spec.get(pool, []):
+            items = e.get(field) or []
+            if len(items) != len(set(items)):
+                out.add("shape:same-object-twice-in-a-reference-list")
     return sorted(out)
